@@ -294,8 +294,11 @@ def count_boundary_histories(chk, tier):
 def long_histories(chk, tier):
     """Long columns (hundreds to thousands of rows): level runs and bit-packed groups of every length class, pages with
     many values, run headers beyond one varint byte. Null patterns = beat of two square waves (MC_WriterGen "beat")."""
-    rows = [100, 520, 1100] if tier == "quick" else [100, 520, 1100, 4100, 9000]
-    return gen_histories(chk, [1, 3, 9, 6, 4, 8], rows, 2, 3, nullmode="beat", simulate=4 if tier == "quick" else 12, workers=6)
+    if tier == "quick":
+        return gen_histories(chk, [1, 3, 9, 6, 4, 8], [100, 520, 1100], 2, 3, nullmode="beat", simulate=4, workers=6)
+    hs = gen_histories(chk, [1, 3, 9, 6, 4, 8], [100, 520, 1100, 4100], 2, 3, nullmode="beat", simulate=4, workers=8)
+    hs += gen_histories(chk, [1, 6, 3], [9000, 20000], 2, 3, nullmode="beat", simulate=8, workers=8)
+    return hs
 
 
 def nontrivial_history(ops):
